@@ -175,7 +175,12 @@ int main(int argc, char** argv) {
         return 2;
     }
     const std::string cmd = argv[1];
-    run_isolated([] { warm_up(); });
+    // engine C09F runs one run per process WITHOUT warm-up (first use of guarded statics inside the simulation)
+    auto maybe_warm = [](const std::string& engine) {
+        if (engine != "C09F") {
+            run_isolated([] { warm_up(); });
+        }
+    };
 
     if (cmd == "list") {
         for (const auto& e : engines()) {
@@ -189,6 +194,7 @@ int main(int argc, char** argv) {
             out("ERROR unknown engine\n");
             return 2;
         }
+        maybe_warm(argv[2]);
         const Plan pl = e->gen(strtoull(argv[3], nullptr, 10), argv[4]);
         out(pl.to_text());
         return 0;
@@ -199,6 +205,7 @@ int main(int argc, char** argv) {
             out("ERROR unknown engine\n");
             return 2;
         }
+        maybe_warm(argv[2]);
         const uint64_t base = strtoull(argv[3], nullptr, 10);
         const uint64_t i0 = strtoull(argv[4], nullptr, 10);
         const uint64_t cnt = strtoull(argv[5], nullptr, 10);
@@ -240,6 +247,7 @@ int main(int argc, char** argv) {
             out("ERROR unknown engine\n");
             return 2;
         }
+        maybe_warm(pl.engine);
         const int reps = (argc >= 4 && std::string(argv[3]) == "twice") ? 2 : 1;
         for (int k = 0; k < reps; ++k) {
             out(fmt("BEGIN %llu %d\n", static_cast<unsigned long long>(pl.seed), k));
